@@ -307,6 +307,16 @@ def parser_units(w, prop, only=None):
                          detail=f"pos={p!r}")
                 return
             it.check("post:cursor-stays-within-the-token-list", z3.And(cur >= 0, cur <= N))
+            if prop == "C20" and isinstance(o.value, Obj) and "pos" in o.value.fields:
+                # a node built here is positioned at one of the tokens of its construct: a token this function consumed, or (for
+                # the helpers entered after the opening token / on a postfix operator) the token just before the entry cursor
+                pz = o.value.fields["pos"]
+                if isinstance(pz, SElem) and z3.is_app(pz.z) and pz.z.decl().name() == "TOKPOS":
+                    j = pz.z.arg(0)
+                    slack = 0 if name in STRICT else 1
+                    it.check("post:the-node-is-positioned-at-a-token-of-its-construct", z3.And(j >= start - slack, j < cur), detail=str(pz.z))
+                else:
+                    it.check("post:the-node-has-a-position", pz is not None)
             if name in STRICT:
                 it.check("post:returns-a-node-after-consuming-at-least-one-token", z3.And(o.value is not None, cur > start))
             elif name in LITERALS:
